@@ -31,8 +31,13 @@ Section Shaped.
   | SP_none t v : ShB t v -> ShP (ANone t) false v
   | SP_opt_none t : ShP (ANone t) true (RVOpt None)
   | SP_opt_some t y : ShB t y -> ShP (ANone t) true (RVOpt (Some y))
-  | SP_fixed_opaque s w : ShP (AFixed Opaque s) false (RVBytes w)
-  | SP_fixed t s l : t <> Opaque -> ShL t l -> ShP (AFixed t s) false (RVArr l)
+  | SP_fixed_opaque s w :
+      (forall n, resolve_size A s true = EOk n -> len (vdata w) = n) ->
+      ShP (AFixed Opaque s) false (RVBytes w)
+  | SP_fixed t s l :
+      t <> Opaque -> ShL t l ->
+      (forall n, resolve_size A s true = EOk n -> N.of_nat (List.length l) = n) ->
+      ShP (AFixed t s) false (RVArr l)
   | SP_var_opaque s w : ShP (AVar Opaque s) false (RVBytes w)
   | SP_var_string s b : ShP (AVar TString s) false (RVString b)
   | SP_var t s l : t <> Opaque -> t <> TString -> ShL t l -> ShP (AVar t s) false (RVVec l)
@@ -163,8 +168,8 @@ Section ShapedSize.
       destruct IH as [w [Hw Hc]]. destruct (Hc eq_refl) as [Hw4 _].
       exists (4 + w). cbn [wsz]. rewrite Hw. cbn [option_map wsz_opt]. split; [reflexivity|].
       cbn [contains_opaque unwrap_array is_opaque padded]. lia.
-    - intros s w _. exists (wsz_bytes w). split; [reflexivity|]. cbn. apply padded_true_mult4.
-    - intros t s l Ht _ IH _.
+    - intros s w _ _. exists (wsz_bytes w). split; [reflexivity|]. cbn. apply padded_true_mult4.
+    - intros t s l Ht _ IH _ _.
       assert (Ho : is_opaque t = false) by (destruct t; try reflexivity; congruence).
       destruct (IH Ho) as [x [Hx Hm]]. exists (wsz_slice x). cbn [wsz]. rewrite Hx. cbn [option_map].
       split; [reflexivity|]. unfold contains_opaque. cbn [unwrap_array]. rewrite Ho. cbn [padded].
